@@ -373,6 +373,7 @@ class Runner:
         self.native = Proc([native_path])
         self.host = Proc([host_path])
         self.import_handler = None   # for intrinsic events (C07)
+        self.event_handler = None    # for EVENT lines (C07)
 
     def close(self):
         self.native.send("QUIT")
@@ -448,6 +449,13 @@ class Runner:
         while True:
             l = self.native.recv()
             if l is None: raise Crash("native died")
+            if l.startswith("EVENT|"):
+                # guest-side observation that keeps its place among the import events (payload created/taken/dropped)
+                if self.event_handler is not None:
+                    self.event_handler(l[6:], out)
+                else:
+                    out.setdefault("events", []).append(l[6:])
+                continue
             if l.startswith("IMPORT|"):
                 _, key, bits = l.split("|")
                 bits = [int(x) for x in bits.split(",")] if bits else []
